@@ -98,11 +98,6 @@ def Document.fragByName (d : Document) (n : Name) : Option FragDef :=
 /-- keys of `known_fragments` (distinct names; iteration order of the real map is arbitrary) -/
 def Document.fragNames (d : Document) : List Name := (d.fragments.map (·.name)).eraseDups
 
-/-- `ctx.directives.get(name)`: also a `HashMap::from_iter`, last definition wins
-    (`schema.directive_by_name` is first-match; they agree when directive names are unique) -/
-def Schema.directiveMapGet (s : Schema) (n : Name) : Option DirectiveDef :=
-  s.directives.reverse.find? (·.name == n)
-
 /-! ### Rule interface -/
 
 /-- A rule is a fold over the callbacks `(event, context answers)` of one document walk, with a
